@@ -19,7 +19,7 @@ func callPool(r *rng, n int) []string {
 		if len(f) > 6000 {
 			continue
 		}
-		e := []string{"decode", "decode", "chained", "integ", "headerfid"}[i%5]
+		e := []string{"decode", "chained", "integ", "integhdr", "headerfid", "decode", "header"}[i%7]
 		o := []string{"000", "011", "111"}[i%3]
 		pool = append(pool, decCase(e, o, "-", "-", f))
 	}
@@ -101,7 +101,7 @@ func init() {
 			rep.Cases = append(rep.Cases, fmt.Sprintf("encrep 8 %d %s", i%2, txt))
 		}
 		return []CaseSet{alone, hist, rep},
-			"random histories of 5-40 calls (Decode with option sets, DecodeChained, CheckIntegrity, DecodeHeaderAndFileID, Encode in both byte orders) over a pool of inputs incl. component-bearing files and timestamp sequences that use the time reference before setting it, every call also made alone with fresh package state and, for a sample, first in a fresh process; every Encode repeated 8 times on deeply equal Files; for every message type with 20 or more struct fields, Files holding one message that differ in exactly one late struct field (indices 16 … 90 and the last two) encoded one after another in both orders. Oracles: each result in a history equals the model threading the package-level accumulators, equals the call alone except on the accumulated fields named in known_findings.txt, identical bytes for identical Files; static fact: the set of package-level variables written on the decode/encode paths", false
+			"random histories of 5-40 calls (Decode with option sets, DecodeChained, CheckIntegrity header-only and full, DecodeHeader, DecodeHeaderAndFileID, Encode in both byte orders) over a pool of inputs incl. component-bearing files and timestamp sequences that use the time reference before setting it, every call also made alone with fresh package state and, for a sample, first in a fresh process; every Encode repeated 8 times on deeply equal Files; for every message type with 20 or more struct fields, Files holding one message that differ in exactly one late struct field (indices 16 … 90 and the last two) encoded one after another in both orders. Oracles: each result in a history equals the model threading the package-level accumulators, equals the call alone except on the accumulated fields named in known_findings.txt, identical bytes for identical Files; static fact: the set of package-level variables written on the decode/encode paths", false
 	}
 	propPost["C08"] = postC08
 }
